@@ -17,6 +17,7 @@ import (
 	"mellium.im/xmpp"
 	"mellium.im/xmpp/jid"
 	"mellium.im/xmpp/stanza"
+	"mellium.im/xmpp/stream"
 	"mellium.im/xmpp/websocket"
 	"verifharness/hx"
 )
@@ -374,6 +375,22 @@ func (x *runner) runSess(c sessCase) {
 			x.res.Fail("C12/restart/init/empty-to-clears-local-address", fmt.Sprintf("after a header with to='' was accepted the session reports the local address %q, established was %q", s.LocalAddr(), estTo), c)
 		} else if !s.LocalAddr().Equal(estTo) || !s.RemoteAddr().Equal(estFrom) {
 			x.res.Fail("C12/restart/"+role+"/reported-address", fmt.Sprintf("session reports local=%q remote=%q, established were %q and %q", s.LocalAddr(), s.RemoteAddr(), estTo, estFrom), c)
+		}
+	}
+	// a stream error sent in place of a header (initial or after a restart) is
+	// returned as that stream.Error (errors.As), in both roles and framings
+	if err != nil {
+		fk := 0
+		for fk < n && fk < roundsRun && accepted(fk) {
+			fk++
+		}
+		if fk < n && fk < roundsRun {
+			if cond, isErr := streamErrorIn(hdrs[fk]); isErr {
+				var se stream.Error
+				if !errors.As(err, &se) || se.Err != cond {
+					x.res.Fail("C12/session/stream-error-not-returned/"+role, fmt.Sprintf("the peer sent the stream error %q in place of stream header %d; the session returns %T %q, which is not that stream.Error", cond, fk+1, err, err.Error()), c)
+				}
+			}
 		}
 	}
 	// every header the session printed must be well-formed and carry the addresses
